@@ -28,7 +28,11 @@ TRUSTED = ["numpy sort / roll / argmax / mod and xarray shift / sum(skipna) / ma
 ASSUMPTIONS = ["sequence values are small dyadic numbers, angles lie on a 5 degree lattice (possibly rotated by a dyadic amount), so "
                "differences, % 360 and comparisons are exact in float64; quotients by N-2 are compared to 1e-9",
                "threshold ties in proportion-exceeding are only generated for N-2 a power of two (exact quotient)",
-               "float rounding, overflow, signed zero and infinite values are not modelled"]
+               "float rounding, overflow, signed zero and infinite values are not modelled",
+               "storage dtypes (uint8-64, int8-64, float32) are compared by value: the model / spec are evaluated on the same numbers as "
+               "exact rationals (they do not depend on the dtype); magnitudes <= 2**40; results computed in float32 (float32 and <= 16-bit "
+               "integer storage) are compared to 1e-6; three dtype classes fail on the unchanged code and are known findings "
+               "C18-INT1/2/3 (notes/C18.md)"]
 MANIFEST = dict(
     level="proof",
     text="Kernel-checked Lean theorems, for sequences of any length >= 3, about a model of _flip_flop_index whose pointwise pieces "
@@ -55,7 +59,9 @@ MANIFEST = dict(
     design="6/C18")
 RULE = ("all sequences of length 3-5 over a 3-value pool, all angle tuples of size <= 3 (quick) / <= 4 (thorough) on a 45 degree "
         "lattice, random sequences of length 3-6 over small pools with ties / NaN / extra dims, angle sets on a 5 degree lattice "
-        "beyond [0,360) with antipodal pairs, duplicates, equal and exactly-180 gaps, dyadic rotations; distinct = distinct "
+        "beyond [0,360) with antipodal pairs, duplicates, equal and exactly-180 gaps, dyadic rotations; the same kinds of sequences "
+        "stored as uint8/16/32/64, int8/16/32/64 (values at the dtype limits) and float32, 1-D and in arrays with selections / "
+        "proportion exceeding; distinct = distinct "
         "canonical case; non-trivial = a finite result")
 
 
@@ -224,6 +230,9 @@ def wrap_signed(v, dt):
 
 def dtype_finding(xs, dt, angular):
     """input classes on which the UNCHANGED code computes in the storage dtype and goes wrong (notes/C18.md); None otherwise"""
+    # C18-INT1/2/3 are REPAIRED in /repo (fix: 5b88b8d, data promoted to float): nothing is excused any more, a
+    # regression on integer storage is a plain VIOLATION.  (The classification below is kept for the record.)
+    return None
     d = np.dtype(dt)
     if d.kind not in "iu":
         return None
@@ -294,7 +303,7 @@ def check_typed(ctx, cases, kind, batch):
                 # exactly the value obtained when max - min is evaluated in the signed storage dtype
                 tv = sum(abs(b - a) for a, b in zip(xs, xs[1:]))
                 w = Fraction(tv - wrap_signed(max(xs) - min(xs), dt), len(xs) - 2)
-                if core.close(v, w):
+                if core.close(v, w, rtol=tol):
                     tags["defect"] = find
             ctx.fail(batch, kind, "flip_flop_index", "value-differs-from-formula" if kind == "property" else "value", case,
                      observed=v, expected=e, tags=tags, theorem="ffi_angular_formula" if ang else "ffi_formula")
@@ -375,7 +384,9 @@ def correspondence(ctx):
         if not core.close(v, m) or not core.close(v2, m):
             ctx.fail(batch, "correspondence", "encompassing_sector_size", "value", case, observed=[v, v2], expected=m, tags={"skipna": sk})
     # the same numbers stored in integer / float32 dtypes
-    check_typed(ctx, typed_stream(ctx), "correspondence", "impl-vs-model-dtypes")
+    # (the input classes of the dtype findings of notes/C18.md are left to the property oracle: a correspondence failure
+    # would only switch the oracle to its boosted budget on every run)
+    check_typed(ctx, [t for t in typed_stream(ctx) if not (finite(t[0]) and dtype_finding(*t))], "correspondence", "impl-vs-model-dtypes")
     # arrays with extra dims, selections, proportion exceeding
     arr_cases = [gen_array_case(rng) for _ in range(ctx.n(120, 1200))]
     run_arrays(ctx, arr_cases, "impl-vs-model-arrays", "correspondence")
